@@ -51,6 +51,9 @@ TransformWhy(cmd, src, dst, f) ==
   ELSE IF \E t \in fn : t[1] = cmd /\ t[2] = cids[src] /\ t[3] # Obs(dst).cid
     THEN <<"C19", cmd \o ": two renderings of one document give different results">>
   ELSE IF Obs(dst).m # docs'[dst].meaning THEN <<"FRAME", cmd \o " changes what the document describes">>
+  \* idempotence: flattening (expanding) what the same command produced gives the same document back
+  ELSE IF cmd \in {"flatten", "expand"} /\ (\E t \in fn : t[1] = cmd /\ t[3] = cids[src]) /\ Obs(dst).cid # cids[src]
+    THEN <<"FRAME", cmd \o " is not idempotent">>
   ELSE IF Obs(dst).layout # docs'[dst].layout THEN <<"FRAME", cmd \o ": unexpected $ref layout of the output">>
   ELSE IF Changed # {} THEN <<"FRAME", cmd \o " modified a document it was not asked to write">>
   ELSE IF ~Ev.userOK THEN <<"C11", cmd \o " modified a file of the user in the generation target">>
